@@ -137,6 +137,9 @@ func (c e2eCase) execName() string {
 func runE2E(r *ev.Run, cov ev.Coverage) {
 	vsys.Quiet()
 	vsys.FastRetries()
+	// only failure-free runs are judged; under CPU starvation keepalives can time
+	// out, so do not let "too many consecutive losses" turn a slow run into an error
+	exec.VerifSetMaxConsecutiveLost(false)
 	// small vectors (4 rows; the combiner needs a power of two) so that 7 and 20 rows travel in several batches
 	if err := flag.Set("bigslice-internal-default-chunk-rows", "4"); err != nil {
 		ev.Fatal("cannot set chunk rows: %v", err)
